@@ -57,7 +57,18 @@ Lemma w_empty_agg_ok : verdict fl_sqlite w_empty_agg = ([6]%nat, [5]%nat, false)
 Lemma w_running_ok : verdict fl_sqlite w_running = ([7]%nat, [6]%nat, false).         Proof. vm_compute. reflexivity. Qed.
 Lemma w_sort_asc_ok : verdict fl_sqlite w_sort_asc = ([8]%nat, [7]%nat, false).       Proof. vm_compute. reflexivity. Qed.
 Lemma w_window_order_ok : verdict fl_sqlite w_window_order = ([8]%nat, [7]%nat, false). Proof. vm_compute. reflexivity. Qed.
-Lemma w_join_ok : verdict fl_sqlite w_join = ([10]%nat, [9]%nat, false).              Proof. vm_compute. reflexivity. Qed.
+(* null join keys on both sides: since /repo af27aca the Pandas executor no longer pairs null keys (fl_pandas), so the four named
+   flavours agree; a backend that paired them (what pandas.merge does, the field set by hand) would differ *)
+Lemma w_join_ok : verdict fl_sqlite w_join = ([10]%nat, []%nat, true).                  Proof. vm_compute. reflexivity. Qed.
+Lemma w_join_postgres : verdict fl_postgres w_join = ([10]%nat, []%nat, true).          Proof. vm_compute. reflexivity. Qed.
+Lemma w_join_polars : verdict fl_polars w_join = ([10]%nat, []%nat, true).              Proof. vm_compute. reflexivity. Qed.
+Definition fl_matching_null_keys : flavor := set_field FJoinNull true fl_pandas.
+Lemma w_join_hypothetical : verdict fl_matching_null_keys w_join = ([10]%nat, [9]%nat, false). Proof. vm_compute. reflexivity. Qed.
+(* a FULL join with null keys on one side only: every named flavour keeps the null-key rows *)
+Definition w_full_join : op := OJoin T1 (OSelectRows T2 (EOp ">" [ECol "k"; EConst (zv 0)])) ["k"] ["k"] JFull.
+Lemma w_full_join_ok : verdict fl_sqlite w_full_join = ([]%nat, []%nat, true) /\ insensitive w_full_join w_env = true
+                       /\ option_map (fun t => List.length (rows t)) (sem_strict w_full_join w_env) = Some 6%nat.
+Proof. vm_compute. repeat split; reflexivity. Qed.
 (* PostgreSQL: nulls LAST ascending (as Pandas), FIRST descending (unlike Pandas and SQLite) *)
 Lemma w_sort_asc_pg : verdict fl_postgres w_sort_asc = ([8]%nat, []%nat, true).       Proof. vm_compute. reflexivity. Qed.
 Lemma w_sort_desc_pg : verdict fl_postgres w_sort_desc = ([8]%nat, [8]%nat, false).   Proof. vm_compute. reflexivity. Qed.
@@ -89,8 +100,8 @@ Lemma w_sort_asc_refuted : differ_with_causes fl_sqlite [8]%nat.
 Proof. exists w_sort_asc, w_env. vm_compute. split; reflexivity. Qed.
 Lemma w_window_order_refuted : differ_with_causes fl_sqlite [8]%nat.
 Proof. exists w_window_order, w_env. vm_compute. split; reflexivity. Qed.
-Lemma w_join_refuted : differ_with_causes fl_sqlite [10]%nat.
-Proof. exists w_join, w_env. vm_compute. split; reflexivity. Qed.
+Lemma w_join_some_flavour_refuted : exists fl : flavor, differ_with_causes fl [10]%nat.
+Proof. exists fl_matching_null_keys, w_join, w_env. vm_compute. split; reflexivity. Qed.
 Lemma w_sort_desc_pg_refuted : differ_with_causes fl_postgres [8]%nat.
 Proof. exists w_sort_desc, w_env. vm_compute. split; reflexivity. Qed.
 Lemma w_final_order_refuted :
